@@ -2,6 +2,7 @@ import SJ.Proofs.Facts
 import SJ.Proofs.Edit
 import SJ.Proofs.WalkSafe
 import SJ.Proofs.Bridge
+import SJ.Proofs.DeleteDoc
 /-
 C14 — Deletion removes exactly the selected members and all APIs agree after it.
 -/
@@ -75,5 +76,60 @@ theorem C14_key_value_gap_misread :
     owalkObj WalkLayout.cexPJ { lim := 7, off := 1 } [] (fuelOf WalkLayout.cexPJ) = .ok [] ∧
     (match View.forEach WalkLayout.cexPJ [] (View.iter { lim := 7, off := 1 }) 0 #[] (fuelOf WalkLayout.cexPJ) with
       | .ok cbs => cbs.size == 1 | _ => false) = true := WalkLayout.neb_gap_counterexample
+
+open SJ.DeleteDoc SJ.WalkLayout in
+/-- **Array.DeleteElems, whole document.** For a located document `doc` with the array node `[p, e)`, any
+    predicate: every element is visited exactly once, in order (`its`, each cursor standing on its element), and
+    the new tape holds `doc` with that array replaced by the elements for which deletion was *not* requested,
+    at their old positions; strings, message and tape size untouched. -/
+theorem C14_array_delete (pj : PJ) (doc : LVal) (hdoc : Ok pj doc) (p e : Nat) (es : LVals) (pred : Nat → Bool)
+    (cur : UInt64) (t : UInt8) (fuel : Nat) (hnode : HasNode p e doc)
+    (hok : Ok pj (.arr p e es)) (hsmall : pj.tape.size < 2^56) (hf : lenVs es < fuel) :
+    ∃ pj' its, View.arrDeleteElems pj pred { lim := e, off := p + 1, addNext := 0, cur := cur, t := t } 0 #[] fuel = .ok (pj', its) ∧
+      Ok pj' (substV p (.arr p e (filterVs pred 0 es)) doc) ∧
+      pj'.strings = pj.strings ∧ pj'.msg = pj.msg ∧ pj'.tape.size = pj.tape.size ∧
+      its.size = lenVs es ∧ Stands pj e es its.toList :=
+  arrDeleteElems_doc pj doc hdoc p e es pred cur t fuel hnode hok hsmall hf
+
+open SJ.DeleteDoc SJ.WalkLayout in
+/-- **Object.DeleteElems, whole document**, with or without key filter: the members whose key passes the filter
+    are visited once each, in order; the n-th visited one is removed (key and value) iff `pred n key`; the tape
+    then holds `doc` with the object replaced by the survivors. Duplicate keys are all visited. -/
+theorem C14_object_delete (pj : PJ) (doc : LVal) (hdoc : Ok pj doc) (p e : Nat) (ms : LMems) (pred : Nat → Bytes → Bool)
+    (onlyKeys : List Bytes) (cur : UInt64) (t : UInt8) (fuel : Nat) (hnode : HasNode p e doc)
+    (hok : Ok pj (.obj p e ms)) (hsmall : pj.tape.size < 2^56) (hf : lenMs ms < fuel) :
+    ∃ pj' cbs, View.deleteElems pj pred onlyKeys { lim := e, off := p + 1, addNext := 0, cur := cur, t := t } 0 #[] fuel = .ok (pj', cbs) ∧
+      Ok pj' (substV p (.obj p e (filterMs pred onlyKeys 0 ms)) doc) ∧
+      pj'.strings = pj.strings ∧ pj'.msg = pj.msg ∧ pj'.tape.size = pj.tape.size ∧
+      cbs.size = (visitedMs onlyKeys 0 ms).length ∧ StandsM pj e (visitedMs onlyKeys 0 ms) cbs.toList :=
+  deleteElems_doc pj doc hdoc p e ms pred onlyKeys cur t fuel hnode hok hsmall hf
+
+open SJ.DeleteDoc SJ.WalkLayout in
+/-- `fn == nil`: "all elements in onlyKeys will be deleted; if both are nil all elements are deleted" — exactly. -/
+theorem C14_object_delete_nil_fn (pj : PJ) (doc : LVal) (hdoc : Ok pj doc) (p e : Nat) (ms : LMems)
+    (onlyKeys : List Bytes) (cur : UInt64) (t : UInt8) (fuel : Nat) (hnode : HasNode p e doc)
+    (hok : Ok pj (.obj p e ms)) (hsmall : pj.tape.size < 2^56) (hf : lenMs ms < fuel) :
+    ∃ pj' cbs, View.deleteElems pj (fun _ _ => true) onlyKeys { lim := e, off := p + 1, addNext := 0, cur := cur, t := t } 0 #[] fuel = .ok (pj', cbs) ∧
+      Ok pj' (.obj p e (nilFnResult onlyKeys ms)) ∧
+      Ok pj' (substV p (.obj p e (nilFnResult onlyKeys ms)) doc) ∧
+      AgreeOut pj pj' (p + 1) (e - 1) ∧
+      pj'.strings = pj.strings ∧ pj'.msg = pj.msg ∧ pj'.tape.size = pj.tape.size ∧
+      cbs.size = (visitedMs onlyKeys 0 ms).length ∧ StandsM pj e (visitedMs onlyKeys 0 ms) cbs.toList :=
+  deleteElems_nilfn_doc pj doc hdoc p e ms onlyKeys cur t fuel hnode hok hsmall hf
+
+open SJ.DeleteDoc SJ.WalkLayout in
+/-- **All readers agree after a deletion**: reading the array (Advance-based walk) resp. the object
+    (NextElementBytes-based walk) back from the new tape gives exactly the survivors. -/
+theorem C14_delete_then_read (pj : PJ) (p e : Nat) :
+    (∀ (es : LVals) (pred : Nat → Bool) (cur : UInt64) (t : UInt8) (fuel : Nat),
+      Ok pj (.arr p e es) → TightVs es → pj.tape.size < 2^56 → lenVs es < fuel →
+      ∃ pj' its, View.arrDeleteElems pj pred { lim := e, off := p + 1, addNext := 0, cur := cur, t := t } 0 #[] fuel = .ok (pj', its) ∧
+        owalkArr pj' { lim := e, off := p + 1, addNext := 0, cur := cur, t := t } [] (fuelOf pj') = .ok (toOVals (filterVs pred 0 es))) ∧
+    (∀ (ms : LMems) (pred : Nat → Bytes → Bool) (onlyKeys : List Bytes) (cur : UInt64) (t : UInt8) (fuel : Nat),
+      Ok pj (.obj p e ms) → TightMs ms → pj.tape.size < 2^56 → lenMs ms < fuel →
+      ∃ pj' cbs, View.deleteElems pj pred onlyKeys { lim := e, off := p + 1, addNext := 0, cur := cur, t := t } 0 #[] fuel = .ok (pj', cbs) ∧
+        owalkObj pj' { lim := e, off := p + 1 } [] (fuelOf pj') = .ok (toOMems (filterMs pred onlyKeys 0 ms))) :=
+  ⟨fun es pred cur t fuel a b c d => arrDeleteElems_readback pj p e es pred cur t fuel a b c d,
+   fun ms pred ks cur t fuel a b c d => deleteElems_readback pj p e ms pred ks cur t fuel a b c d⟩
 
 end SJ.Properties.C14
